@@ -145,8 +145,12 @@ def gen_update(rng, st, k):
         return {"unique": False}
     if r < 0.9 and G.CHECKS.get(dt):
         c = G.gen_check(rng, dt, rich=False)
+        if st.backend == "polars" and c["kind"] == "unique_values_eq":
+            # polars unique_values_eq on a regex-selected column raises
+            # ColumnNotFoundError (not a C15 matter): use another check
+            c = {"kind": "gt", "args": [0], "bad": -5}
         return {"checks": [c]}
-    if dt == "int" and not st.frame_dtype:
+    if dt == "int" and not st.frame_dtype and not st.cols[k].get("cast"):
         return {"dtype": "float"}
     return {"title": "t2"}
 
@@ -282,7 +286,8 @@ def apply_data(step, st: State, new_schema):
                 for lab in st.labels(k):
                     D = (D.with_columns(pl.col(lab).cast(pl.Float64)) if polars
                          else D.astype({lab: "float64"}))
-                st.cols[k]["dtype"] = kw["dtype"]
+                # the values stay 1.0, 2.0, 3.0: keep generating int-pool checks
+                st.cols[k]["cast"] = True
                 st.cols[k]["bad"] = None
             if "required" in kw:
                 st.cols[k]["required"] = kw["required"]
